@@ -21,6 +21,7 @@ RULE = ("aggregates of 2-5 sites, gaps 20-800 1/cm, couplings 10-300 1/cm (Foers
         "stratum T >= 250 K with lambda 50-100); the eigenstate-basis tensor reached by four routes (tensor form; operator form converted in a later context, outside, or after a read); spectral-density / FT cases on axes of 200-2000 points. distinct = (class, N, rounded gaps, bath, T, axis); "
         "non-trivial iff at least one downhill rate exceeds 1e-6 1/fs (rates) resp. the function has more than 20 resolved points (symmetry).")
 RULE = RULE + " Round-6 workloads: directed Foerster cases: equal bare site energies with different baths, and two equal gaps with the baths swapped."
+RULE = RULE + " Round-7 workloads: in every second Redfield case the time-dependent rates are computed first from the same Hamiltonian and system-bath interaction objects."
 ASSUMPTIONS = ["all transition frequencies lie inside the 3000 1/cm cut-off the rate code hard-wires and below half the Nyquist frequency of the axis",
                "tight golden-rule tolerance 2e-3 relative (+1e-7 of the largest rate): quadrature difference between spline/FFT and the analytic half-Fourier "
                "transform of the same exponentials; loose tolerances are calibrated (3x the worst deviation seen on the unchanged tree) and stratified by temperature",
